@@ -29,7 +29,12 @@ NodeErr(t, n) ==
   LET s == t.steps[n]
       b1 == {i \in 1..Len(s) : s[i].seq # i - 1}
       b2 == {i \in 1..Len(s) : s[i].end < s[i].start \/ (i > 1 /\ s[i].start < s[i - 1].end)}
-  IN IF b1 # {} THEN Err("StepSeqGapFree", <<n, CHOOSE i \in b1 : TRUE>>, "seq = index", "violated")
+      \* every episode starts from time 0 on every node: with the wall clock the episode's clock is read when the nodes START, not before the
+      \* (arbitrarily long) startup() hooks run; t.t0bound = the startup time the harness injected, far above any phase (present only then)
+      \* (the first step's START is nominal under the wall clock - previous end 0 - so the measured quantity is its END)
+      b0 == "t0bound" \in DOMAIN t /\ Len(s) > 0 /\ s[1].end >= t.t0bound
+  IN IF b0 THEN Err("EpisodeClockStartsAtZero", <<n, 0>>, t.t0bound, s[1].end)
+     ELSE IF b1 # {} THEN Err("StepSeqGapFree", <<n, CHOOSE i \in b1 : TRUE>>, "seq = index", "violated")
      ELSE IF b2 # {} THEN LET i == CHOOSE i \in b2 : TRUE IN Err("StepsDoNotOverlap", <<n, i - 1>>, IF i > 1 THEN s[i - 1].end ELSE 0, s[i].start)
      ELSE NoErr
 
